@@ -322,6 +322,12 @@ class FieldMappingTransformationBase(DetectionItemTransformation):
         if field_match or fieldref_match:  # field name was changed or field reference was mapped
             if self._pipeline is not None and mapping is not None:
                 self._pipeline.field_mappings.add_mapping(field, mapping)
+                if field_match and field is not None and self.processing_item is not None:
+                    self._pipeline.track_field_processing_items(
+                        field,
+                        [mapping] if isinstance(mapping, str) else mapping,
+                        self.processing_item.identifier,
+                    )
             return result
         return None  # no replacement was made
 
